@@ -152,7 +152,7 @@ double gen_nu(const std::vector<double> &edges_eV, double lo, double hi) {
     return vr::logu(lo * NUH, hi * NUH);
   double nu = edge_hz(vr::pick(edges_eV));
   if (mode == 1) { // exactly on / a few ulps around
-    const int k = (int)vr::irange(-3, 3);
+    const int k = vr::coin(0.3) ? 0 : (int)vr::irange(-3, 3);
     for (int j = 0; j < std::abs(k); ++j)
       nu = std::nextafter(nu, k > 0 ? INFINITY : 0.);
     return nu;
@@ -224,6 +224,8 @@ VCase gen_xsec_shell() {
   double nu;
   if (vr::coin(0.1)) // y = E/E0 = 1: the factor (y-1)^2 cancels
     nu = edge_hz(r.E0) * (vr::coin(0.3) ? 1. : vr::logu(0.999, 1.001));
+  else if (vr::coin(0.3)) // somewhere above this shell's own threshold
+    nu = edge_hz(r.Eth) * vr::logu(0.5, 50.);
   else
     nu = gen_nu(e, 0.5, vr::coin(0.7) ? 100. : 1e4);
   c.D("nu", nu);
@@ -817,6 +819,7 @@ struct SpecRef {
   double kdown, kup;        // resolution: Q(u) in [nu - kdown*bin, nu + kup*bin]
   double eps_u;             // slack on u (quadrature / Monte Carlo noise)
   double kfirst = 0.;       // resolution (bins) for deviates in the first bin
+  bool check_cdf = true;    // false: range and monotonicity only
 };
 
 // returns "" or a failure message; sets labels
@@ -846,7 +849,7 @@ std::string check_samples(const SpecRef &s, const std::vector<double> &u,
     if (k > 0 && nu[k] < nu[k - 1] * (1. - 16 * 0x1p-52) && msg.empty())
       msg = fmt("not monotone: u=%.17g -> %.17g Hz but u=%.17g -> %.17g Hz",
                 u[k - 1], nu[k - 1], u[k], nu[k]);
-    if (s.cdf) {
+    if (s.cdf && s.check_cdf) {
       const double x = nu[k] / s.unit;
       // the first bin of a table is resolved no better than the bin itself
       const double kd = (u[k] < c_first) ? std::max(s.kfirst, s.kdown) : s.kdown;
@@ -1082,18 +1085,19 @@ VResult o_lyc(const VCase &c) {
   for (size_t k = 0; k < u.size(); ++k)
     nu.push_back(which == 0 ? SH.get_random_frequency(g, T)
                             : SHe.get_random_frequency(g, T));
-  const c18::Cdf cdf = lyc_cdf(which, T);
+  // outside the tabulated temperatures (bin centres 1567.5 .. 14932.5 K) the
+  // sampler documents a clamp to the nearest table: the distribution there is
+  // that of the first / last tabulated temperature
+  const double Teff = std::max(LYC_T0, std::min(T, LYC_T1));
+  const c18::Cdf cdf = lyc_cdf(which, Teff);
   const double lo = cdf.lo, hi = cdf.hi;
   // the sampler returns table nodes (no interpolation inside a bin) blended
   // between the two neighbouring temperature tables: the exact quantile lies
   // in [nu, nu + 1 bin]; a quarter of a bin is allowed on either side
   SpecRef s{lo, hi, &cdf, 1., (hi - lo) / 999., 0.25, 1.25, 1e-4};
   const std::string m = check_samples(s, u, nu, r);
-  if (!m.empty()) {
+  if (!m.empty())
     r.fail(fmt("%s Lyman continuum at T=%.17g K: ", which == 0 ? "H" : "He", T) + m);
-    if (!intable)
-      r.known = "lyc_temperature_extrapolation";
-  }
   return r;
 }
 
@@ -1151,9 +1155,7 @@ VResult o_masked(const VCase &c) {
     r.fail(fmt("masked Planck(T=%g K, %d bins, %d samples): ", cfg.T, cfg.nbins,
                cfg.nsamples) +
            m);
-    // known class: the whole table is shifted down by one bin.  Confirm the
-    // diagnosis: the samples must be consistent with the reference once one
-    // bin width is added
+    // hint for the reader: is the failure explained by a shift of one bin?
     std::vector<double> shifted;
     for (double x : nu)
       shifted.push_back(x + bin * 3.289e15);
@@ -1163,7 +1165,7 @@ VResult o_masked(const VCase &c) {
     s2.nu_min -= bin * 3.289e15;
     s2.kdown = s2.kup = 1.;
     if (check_samples(s2, u, shifted, dummy).empty())
-      r.known = "masked_spectrum_bin_shift";
+      r.msg += " [consistent with the table being shifted down by one bin]";
   }
   return r;
 }
@@ -1178,17 +1180,18 @@ int main(int argc, char **argv) {
       "verner_A.dat, converted as E*(eV/h)) exactly / +-1..3 ulp / "
       "*(1+-{1e-15,1e-12,1e-9,1e-6,1e-3}) / within 10%. Non-trivial = within "
       "1e-6 (relative) of an edge.";
-  props.push_back({"xsec_shell", 60000, gen_xsec_shell, o_xsec_shell,
+  props.push_back({"xsec_shell", 300000, gen_xsec_shell, o_xsec_shell,
                    "every (Z,N,shell) row of verner_A.dat (30% rows of tracked "
                    "ion stages), 10% of the cases at E=E_0 where (y-1)^2 "
-                   "cancels; get_cross_section_verner == independent phfit2 "
+                   "cancels, 27% log-uniform on [0.5,50] x the shell's own "
+                   "threshold; get_cross_section_verner == independent phfit2 "
                    "within 16 eps (4 + |dlnF/dlny|); exact 0 where phfit2 "
                    "returns 0. " + fdom,
                    {{"exactly-on-edge", 0.02},
                     {"ref-outer-shell-fit", 0.03},
                     {"ref-inner-shell-fit", 0.1},
                     {"ref-zero-valence-shell-below-inner-edge", 0.01}}});
-  props.push_back({"xsec_ion", 60000, gen_xsec_ion, o_xsec_ion,
+  props.push_back({"xsec_ion", 300000, gen_xsec_ion, o_xsec_ion,
                    "14 tracked ions through get_cross_section; reference = sum "
                    "of the independent phfit2 over the valence shells "
                    "documented for the ion; exact 0 below the ion threshold; "
@@ -1198,7 +1201,7 @@ int main(int argc, char **argv) {
                    "(row, ion) of /repo/test/verner_testdata.txt: code and "
                    "reference both within 1e-9 of the Fortran table. "
                    "Non-trivial = tabulated value non-zero."});
-  props.push_back({"xsec_fixed", 5000, gen_xsec_fixed, o_xsec_fixed,
+  props.push_back({"xsec_fixed", 20000, gen_xsec_fixed, o_xsec_fixed,
                    "FixedValueCrossSections with 14 generated parameters (20% "
                    "zeros): returns the parameter of the ion for any frequency"});
   const std::string tdom =
@@ -1206,7 +1209,7 @@ int main(int argc, char **argv) {
       "statement boundary {10,1e9,1e5,1e3,6e4,2e4,...} exactly, +-2 ulp, "
       "*(1+-{1e-15..1e-6}), within a factor 2. Non-trivial = within 1e-6 of "
       "such a temperature.";
-  props.push_back({"recombination", 40000, gen_rate, o_rate,
+  props.push_back({"recombination", 200000, gen_rate, o_rate,
                    "14 tracked ions: finite, >=0, >0 for T<=1e5 K; H0 and He0 "
                    "equal Verner & Ferland (1996) eq. 4 (coefficients from the "
                    "paper; H0 also from the shipped rrfit table) to 1e-13. " + tdom,
@@ -1214,17 +1217,17 @@ int main(int argc, char **argv) {
   props.push_back({"recombination_testdata", 3000, gen_rate_testdata,
                    o_rate_testdata,
                    "(row, ion) of /repo/test/verner_rec_testdata.txt to 1e-12"});
-  props.push_back({"rrfit_all", 30000, gen_rrfit, o_rrfit,
+  props.push_back({"rrfit_all", 150000, gen_rrfit, o_rrfit,
                    "every 1<=N<=Z<=30 of get_recombination_rate_verner against "
                    "an own evaluation of rrfit from an own parse of "
                    "verner_rec_data.txt (2e-13), finite and > 0. " + tdom});
-  props.push_back({"recombination_monotone", 30000, gen_chain, o_chain,
+  props.push_back({"recombination_monotone", 100000, gen_chain, o_chain,
                    "H0/He0: chains of up to 8 increasing temperatures (steps "
                    "1 ulp, 1e-12 .. x100): strictly decreasing for relative "
                    "steps >= 1e-12, non-increasing (8 eps) below. Non-trivial = "
                    "chain contains a step <= 1e-6.",
                    {{"chain-with-step<=1e-6", 0.2}}});
-  props.push_back({"charge_transfer", 40000, gen_ct, o_ct,
+  props.push_back({"charge_transfer", 200000, gen_ct, o_ct,
                    "the 19 (reaction, ion) calls of "
                    "compute_ionization_states_metals with T4 = T*1e-4: finite, "
                    ">= 0, < 1e-12 m^3/s, frozen outside the documented validity "
@@ -1235,22 +1238,24 @@ int main(int argc, char **argv) {
       "[1e-4,0.05], uniform, 1-log-uniform[1e-16,1e-2], 1-2^-53}, injected "
       "through RandomGenerator(RestartReader&). Non-trivial = a deviate in the "
       "first or last table bin.";
-  props.push_back({"spectrum_planck", 6000, gen_planck, o_planck,
+  props.push_back({"spectrum_planck", 30000, gen_planck, o_planck,
                    "Planck, T_eff log-uniform [3000,2e5] K (20% special): nu in "
                    "[1,4] x 3.288465385e15 Hz, non-decreasing in u, u inside "
-                   "the reference CDF over +-1 bin (+-2e-4)." + udom,
+                   "the reference CDF over +-0.25 bin (first bin: +-1 bin) "
+                   "+-5e-5." + udom,
                    {{"u-in-first-bin", 0.2}}});
-  props.push_back({"spectrum_simple", 6000, gen_simple, o_simple,
+  props.push_back({"spectrum_simple", 30000, gen_simple, o_simple,
                    "uniform (exact), monochromatic (exact), He two-photon "
-                   "continuum (own parse of He2q.dat, +-0.5 bin, +-1e-4)." + udom});
-  props.push_back({"spectrum_lyc", 6000, gen_lyc, o_lyc,
+                   "continuum (own parse of He2q.dat, +-0.05 bin, +-1e-5)." + udom});
+  props.push_back({"spectrum_lyc", 30000, gen_lyc, o_lyc,
                    "H / He Lyman continuum, T uniform in the table "
                    "[1567.5,14932.5] K (45%), log-uniform [1e3,1e5] K, table "
                    "temperatures +-1 ulp, {100,1500,8000,1e4,15000,1e5,..}: nu "
-                   "in range, non-decreasing, u inside the reference CDF over "
-                   "[-1,+2] bins (+-1e-3)." + udom,
-                   {{"T-inside-table", 0.3}}});
-  props.push_back({"spectrum_masked", 3000, gen_masked, o_masked,
+                   "in range, non-decreasing, u inside the reference CDF (of "
+                   "the nearest tabulated temperature outside the table) over "
+                   "[-0.25,+1.25] bins (+-1e-4)." + udom,
+                   {{"T-inside-table", 0.3}, {"T-below-table", 0.05}, {"T-above-table", 0.05}}});
+  props.push_back({"spectrum_masked", 10000, gen_masked, o_masked,
                    "linearly masked Planck spectra {(4e4 K,100 bins),(2e4,100),"
                    "(1e5,50),(4e4,1000),(4e4,25)} x 4e5 samples: nu in "
                    "[1,4] x 3.289e15 Hz, non-decreasing, u inside the reference "
